@@ -454,7 +454,13 @@ pub fn c09(tier: Tier) -> ! {
     // (1c) history independence: what a thread optimised before must not matter
     let mut histories = 0u64;
     {
-        let pl = Pipeline { stages: vec![(30, 10, 0.05)], max_step: 0.05 };
+        let pl = Pipeline { stages: vec![(200, 50, 0.2)], max_step: 0.05 };
+        // the result and its score as seen by the thread that produced it
+        fn run_scored(st: &AnyState, pl: &Pipeline, seed: u64) -> (String, Option<u64>) {
+            let out = solo(st, pl, seed);
+            let score = serde_json::from_str::<Value>(&out).ok().and_then(|d| AnyState::from_json(&d).ok()).and_then(|s| s.score()).map(|x| x.to_bits());
+            (out, score)
+        }
         let pairs: Vec<(AnyState, AnyState, &str)> = vec![
             (AnyState::from_group("p2", &ShapeSpec::Trimer(0.637556, 120., 1.)), AnyState::from_group("p2", &ShapeSpec::Trimer(0.7, 180., 1.5)), "hard trimer after a different hard trimer"),
             (AnyState::from_group("p2mg", &ShapeSpec::Polygon(4)), AnyState::from_group("p2mg", &ShapeSpec::Polygon(6)), "square after hexagon"),
@@ -464,11 +470,11 @@ pub fn c09(tier: Tier) -> ! {
         for (a, b, what) in pairs {
             histories += 1;
             let (a1, pl1) = (a.clone(), pl.clone());
-            let fresh = std::thread::spawn(move || solo(&a1, &pl1, 3)).join().unwrap_or_default();
+            let fresh = std::thread::spawn(move || run_scored(&a1, &pl1, 3)).join().unwrap_or_default();
             let (a2, b2, pl2) = (a.clone(), b.clone(), pl.clone());
             let after = std::thread::spawn(move || {
-                let _ = solo(&b2, &pl2, 5);
-                solo(&a2, &pl2, 3)
+                let _ = run_scored(&b2, &pl2, 5);
+                run_scored(&a2, &pl2, 3)
             })
             .join()
             .unwrap_or_default();
